@@ -30,10 +30,11 @@ contract(M + ":Time.__add__", "C14", model="R", params={"other": "float"}, retur
          note="model R: exact value, normal form, absorbing infinity; the rounding clause is proved in model F below")
 
 contract(M + ":Time.from_float", "C14", model="R", params={"time": "float"}, returns="Time", fresh_result=True,
-         requires=["time >= 0"],
-         ensures=["implies(not isinf(time), fin0(result) and val(result) == time)",
+         ensures=["implies(not isinf(time), is_int(result._quotient) and 0 <= result._remainder < 1 and val(result) == time)",
+                  "implies(not isinf(time) and time >= 0, fin0(result))",
                   "implies(isinf(time), isinf(result._quotient) and isinf(result._remainder))"],
-         canary="result._remainder == 0")
+         canary="result._remainder == 0",
+         note="any sign (the sampling handler converts -interval): quotient = floor, remainder in [0, 1)")
 spec("fin0(t)", "is_int(t._quotient) and 0 <= t._quotient and 0 <= t._remainder < 1")
 
 contract(M + ":Time.__sub__", "C14", model="R", params={"other": "Time"}, returns="float",
